@@ -281,6 +281,13 @@ func init() {
 			env.Add(c.coq(), c)
 			return nil
 		}
+		var rv vanishCase
+		if ok, _ := env.ReplayDesc(&rv); ok && rv.Vanish != "" {
+			env.Header = hsHeader + "Corr.C14."
+			c := runVanish(rv.Kind, rv.Vanish)
+			env.Add(c.coq(), c)
+			return nil
+		}
 		if err := runServerProp(env, "C14", o, "Non-trivial: the handshake ended without a session (failed, aborted or callback error).", func(c *SCase) bool { return !hasState(c, "established") && (c.Obs.Closed || c.Obs.Ended) }); err != nil {
 			return err
 		}
@@ -297,6 +304,15 @@ func init() {
 				env.Add(c.coq(), c)
 				env.Count("abrupt:" + kind)
 				env.NonTrivial(kind + "/" + first)
+			}
+		}
+		// a peer that presents its credentials and vanishes while Authenticate is deciding
+		for _, kind := range []string{"inproc", "tcp", "ws"} {
+			for _, verdict := range vanishVerdicts {
+				c := runVanish(kind, verdict)
+				env.Add(c.coq(), c)
+				env.Count("vanish-during-authenticate:" + kind + ":" + verdict)
+				env.NonTrivial("vanish/" + kind + "/" + verdict)
 			}
 		}
 		return nil
